@@ -383,3 +383,59 @@ func firstIterationOnly(b *ssa.BasicBlock) bool {
 	}
 	return false
 }
+
+// ChainRule (R-C01-chain): an if / else-if / else chain is emitted as ONE compound command,
+// so that exactly one branch runs: the methods that switch to the next branch emit a
+// continuation of the open construct (Bash: elif … then / else; Batch: ") else if … (" /
+// ") else (") and neither close it nor open a new one.
+func ChainRule(w *World, b *Backend, r *Result, rule string) {
+	for _, m := range []string{"ElseIfStart", "ElseStart"} {
+		key := "chain:" + b.Role + ":" + m
+		lines := b.LinesOf(m)
+		if len(lines) == 0 {
+			r.Bad(rule, key, "-", m+" emits no line")
+			continue
+		}
+		pos := w.Pos(lines[0].Em.Pos)
+		bad := ""
+		conts := 0
+		for _, l := range lines {
+			if b.Role == "bash" && l.Bash != nil {
+				if len(l.Bash.Closes) > 0 {
+					bad = fmt.Sprintf("closes the construct (%v): %s", l.Bash.Closes, l.Variant)
+				}
+				for _, o := range l.Bash.Opens {
+					if o == "if" {
+						bad = "opens a new if: " + l.Variant.String()
+					}
+				}
+				want := map[string]string{"ElseIfStart": "elif", "ElseStart": "else"}[m]
+				for _, mid := range l.Bash.Mids {
+					if mid == want {
+						conts++
+					}
+				}
+			}
+			if b.Role == "batch" && l.Batch != nil {
+				t := strings.ToLower(strings.TrimSpace(l.Batch.Text))
+				if strings.HasPrefix(t, ")") {
+					if (m == "ElseIfStart" && strings.HasPrefix(t, ") else if ")) || (m == "ElseStart" && t == ") else (") {
+						conts++
+					} else {
+						bad = "closes the block without continuing the chain: " + l.Variant.String()
+					}
+				} else if strings.HasPrefix(t, "if ") {
+					bad = "opens a new if: " + l.Variant.String()
+				}
+			}
+		}
+		switch {
+		case bad != "":
+			r.Bad(rule, key, pos, m+" "+bad+" — the following branch becomes a construct of its own and runs even when an earlier branch was taken")
+		case conts == 0:
+			r.Bad(rule, key, pos, m+" emits no continuation keyword of the open if construct")
+		default:
+			r.Ok(rule, key, pos, m+" continues the open construct: "+lines[len(lines)-1].Variant.String())
+		}
+	}
+}
